@@ -133,6 +133,27 @@ def run(tier):
         else:
             rej = ck.judge(rej, tmod, {}, name=name)
         all_rej += rej
+    # growth beyond the listed operations: groupby.value_counts(x, normalize, mask) = size, optionally divided by its total
+    vc = []
+    for keys in itertools.product([NULL, 1, 2, 3], repeat=3):
+        for m in [C.NONE] + [{"k": "bool", "b": list(b)} for b in itertools.product([0, 1], repeat=3)]:
+            if rng.random() < (0.5 if tier == "quick" else 0.0):
+                continue
+            kenc = rng.pick(["f64", "str", "cat", "M8"])
+            c = dict(keys=[[k] for k in keys], kenc=[kenc], mask=m, sort=1, kcont=rng.pick(["np", "series"]), mcont=rng.pick(["np", "series"]))
+            sel = mask_selection(3, m)
+            vc.append(c)
+            vc.append(dict(c, keys=[c["keys"][i] for i in sel], mask=C.NONE, pair="filtered"))
+    lists = ck.drive(api.run_value_counts, vc, warm_cases=[])
+    ck.check_harness([x for x in lists if not isinstance(x, list)])
+    sizes = [l[0] for l in lists if isinstance(l, list)]
+    norms = [l[1] for l in lists if isinstance(l, list)]
+    for t, c in zip(sizes, vc):
+        t["family"], t["pair"] = "value_counts", c.get("pair", "masked")
+    rej = ck.validate("Trace_GBCore", sizes, C01.trace_cfg(), "value_counts", nontrivial=lambda t: t.get("pair") == "masked", key=lambda t: json.dumps([t["keys"], t["mask"], t["kenc"], "vc"]))
+    all_rej += ck.judge(rej, None, {})
+    rej = ck.validate("Trace_GBNormalize", norms, "SPECIFICATION TraceSpec\nCHECK_DEADLOCK FALSE\n", "value_counts_normalize", nontrivial=lambda t: True, key=lambda t: json.dumps([t["keys"], t["mask"], "vcn"]))
+    all_rej += ck.judge(rej, None, {})
     ck.exhaustive = True
     ck.assumptions += ["the filtered call of a pair is built by the harness with Python indexing (keys[sel], values[sel]); the judgement of each call is TLC's",
                        "row-aligned operations take boolean masks only; other mask kinds there are judged by C18"]
@@ -142,5 +163,9 @@ def run(tier):
 def replay(path):
     t = json.load(open(path))
     fam = t.get("family", "reduce")
+    if fam == "value_counts" or t.get("fn", "").startswith("value_counts"):
+        print("value_counts trace; re-run ./check C05:", json.dumps(t)[:600])
+        print(f"VIOLATION property=C05 replay={path}")
+        return 1
     mod = {"reduce": C01, "cum": C08, "roll": C09, "ema": C10}[fam]
     return mod.replay(path)
